@@ -307,6 +307,13 @@ class StmtMixin(ExecBase):
 
     def assign(self, t, v, st, ctx, k, node):
         if isinstance(t, ast.Name):
+            c = getattr(ctx, "contract", None)
+            if c is not None and c.narrow and t.id in c.narrow and self.inline_depth == 0 and isinstance(v, VObj) and len(v.classes) > 1 \
+                    and c.narrow[t.id] in v.classes and getattr(ctx, "qual", None) == getattr(self, "top_qual", None):
+                cls = c.narrow[t.id]
+                line = getattr(node, "lineno", None)
+                self.oblige(st, "line%s::narrow[%s:%s]" % (line, t.id, cls), cls_of(v.t) == class_tag(cls), line, kind="assertion")
+                v = VObj((cls,), v.t)
             st.store[t.id] = v
             return k(st)
         if isinstance(t, (ast.Tuple, ast.List)):
